@@ -506,6 +506,56 @@ Definition mon_C09 (c : cfg) (pre : osnap) (o : op) (post : osnap) : N :=
   | _ => 0%N
   end.
 
+(* C06 on the node, schedule part: the monitor follows every running suspicion
+   (start, effective k, accuser, senders of later suspect claims) and checks that the member is not
+   declared dead earlier than the schedule allows for the confirmations that can have counted *)
+Definition strack := list (N * (Z * Z * N * list N)).
+
+Definition suspect_from (c : cfg) (o : op) : option (N * N) :=
+  match o with
+  | OSuspect _ n f => Some (n, f)
+  | OMerge Dead _ n _ _ _ | OMerge Suspect _ n _ _ _ => Some (n, self c)
+  | _ => None
+  end.
+
+Definition track_step (c : cfg) (pre : osnap) (o : op) (post : osnap) (tr : strack) : strack :=
+  let tr1 := filter (fun e => match ofind (fst e) post with
+                              | Some r => st_eqb (rst (or_rec r)) Suspect && Z.eqb (rsince (or_rec r)) (fst (fst (fst (snd e))))
+                              | None => false end) tr in
+  match suspect_from c o with
+  | Some (n, f) =>
+      match ofind n post with
+      | Some r =>
+          if st_eqb (rst (or_rec r)) Suspect then
+            if existsb (fun e => N.eqb (fst e) n) tr1
+            then map (fun e => if N.eqb (fst e) n
+                               then let '(a, b, acc, fs) := snd e in (fst e, (a, b, acc, f :: fs)) else e) tr1
+            else (n, (rsince (or_rec r), (if o_nn pre - 2 <? kcfg c then 0 else kcfg c), f, [])) :: tr1
+          else tr1
+      | None => tr1
+      end
+  | None => tr1
+  end.
+
+Definition mon_C06_sched (c : cfg) (pre : osnap) (o : op) (post : osnap) (tr : strack) : N :=
+  match o with
+  | OAdvance _ =>
+      if forallb (fun e =>
+           let '(since, k, acc, fs) := snd e in
+           match ofind (fst e) pre, ofind (fst e) post with
+           | Some r, Some r' =>
+               if st_eqb (rst (or_rec r)) Suspect && Z.eqb (rsince (or_rec r)) since && st_eqb (rst (or_rec r')) Dead then
+                 let ds := nodup N.eq_dec (filter (fun x => negb (N.eqb x acc)) fs) in
+                 let n := Z.min (Z.of_nat (length ds)) (Z.max k 0) in
+                 let bound := since + (if n =? 0 then (if k <? 1 then smin c else smaxmult c * smin c)
+                                       else tnth (ttab c) (Z.to_nat n) (smin c)) in
+                 bound <=? rsince (or_rec r')
+               else true
+           | _, _ => true
+           end) tr then 0%N else 162%N
+  | _ => 0%N
+  end.
+
 Definition first_nz (l : list N) : N := fold_right (fun x acc => if N.eqb x 0 then acc else x) 0%N l.
 
 (* which property a monitor code belongs to: 110.. C01, 120.. C02, 130.. C07, 140.. C08, 150.. C18, 160.. C06, 170.. C09.
@@ -516,7 +566,7 @@ Definition code_sel (sel code : N) : N :=
   else if N.eqb (code / 10) sel then code else 0%N.
 
 (* walk the observed trace *)
-Fixpoint monitor_from (sel : N) (c : cfg) (i : N) (pre : osnap) (view : list (N * (N * N))) (linc_leave : option N)
+Fixpoint monitor_from (sel : N) (c : cfg) (i : N) (pre : osnap) (view : list (N * (N * N))) (linc_leave : option N) (tr : strack)
          (ops : list op) (obs : list osnap) : verdict :=
   match ops, obs with
   | o :: ops', post :: obs' =>
@@ -531,14 +581,14 @@ Fixpoint monitor_from (sel : N) (c : cfg) (i : N) (pre : osnap) (view : list (N 
                   else if negb (mem_eqb (sort_by fst view') (o_members post)) then 130%N else 0%N in
         let code := first_nz (map (code_sel sel)
                              [mon_C01 c pre o post; mon_C02 c pre o post; c7; mon_C08 c pre o post linc_leave;
-                              mon_C18 c pre o post; mon_C06 c pre o post; mon_C09 c pre o post]) in
+                              mon_C18 c pre o post; mon_C06 c pre o post; mon_C06_sched c pre o post tr; mon_C09 c pre o post]) in
         if negb (N.eqb code 0) then mkV code i
         else
           let ll := match o with
                     | OLeaveBegin => if o_leaving pre then linc_leave
                                      else match ofind (self c) pre with Some r => Some (rinc (or_rec r)) | None => None end
                     | _ => linc_leave end in
-          monitor_from sel c (i + 1) post view' ll ops' obs'
+          monitor_from sel c (i + 1) post view' ll (track_step c pre o post tr) ops' obs'
   | _, _ => vok
   end.
 
@@ -563,7 +613,7 @@ Definition check_case (sel : N) (cs : list int * (list (list int) * list (list i
       let '(_, view0) := replay (o_evs ob0) [] in
       if negb (mem_eqb (sort_by fst view0) (o_members ob0)) && (N.eqb sel 0 || N.eqb sel 13) then mkV 130 0
       else
-        let v := monitor_from sel c 1 ob0 view0 None ops obs in
+        let v := monitor_from sel c 1 ob0 view0 None [] ops obs in
         if negb (N.eqb (vcode v) 0) then v
         else if negb (N.eqb d0 0) then mkV d0 0
         else compare_from c 1 s0 ops obs
